@@ -10,6 +10,7 @@ spec = {
               # in-memory dependencies on those products; "pyhash_deps": [node…] ⊆ deps — declared as PythonNode(value=<content of
               # data/n<node>.txt at import>, hash=True) instead of a path node; "gen_marks": [marker…] on the child of a generator;
               # "gen_child_deps": [node…] — dependencies (path nodes) of that child;
+              # "late_deps": [node…] — DirectoryNode dependencies, one per node, whose pattern matches that node's ordinary file;
               # "wrap": "top"|"mid"|"bottom" — position of a functools.wraps pass-through decorator in the decorator stack
               } ],
   "versions": {module: int},
@@ -334,6 +335,9 @@ def render_module(spec, m: int, src_value=None) -> str:
                 late_params.append(f"hg{tid}: Annotated[tuple, PythonNode(value=({vals},), hash=True)]")
         for pidx in t.get("mem_in", []):
             late_params.append(f"mi{pidx}: Annotated[object, _verif_mem.node({pidx})]")
+        for n in t.get("late_deps", []):             # optional: a DirectoryNode dependency whose pattern matches the ordinary file of
+            # node n only (the edge to n's producer appears when the pattern is resolved in this task's setup; the body does not read it)
+            late_params.append(f"ld{n}: Annotated[list, DirectoryNode(root_dir=DATA, pattern='n{n}.tx?')]")
         for pidx in t.get("dirdep", []):             # optional: depends on the DirectoryNode product (`dirprod`) of task pidx
             late_params.append(f"dd{pidx}: Annotated[list, DirectoryNode(root_dir=DATA / 'dir{pidx}', pattern='*.txt')]")
         if t.get("mem_out"):
